@@ -284,15 +284,76 @@ fn case_to_json_thunk<C: Case>(p: *const ()) -> Value {
     c.to_json()
 }
 
+/// registry of the cases currently being checked (one slot per worker), for the hang watchdog
+struct Slot {
+    started: Instant,
+    case_ptr: usize,
+    thunk: fn(*const ()) -> Value,
+    stage: String,
+}
+static SLOTS: Mutex<Vec<Option<Slot>>> = Mutex::new(Vec::new());
+thread_local! {
+    static MY_SLOT: Cell<Option<usize>> = Cell::new(None);
+}
+
 struct CurGuard;
 impl Drop for CurGuard {
     fn drop(&mut self) {
         CUR_CASE.with(|c| c.set(None));
+        if let Some(i) = MY_SLOT.with(|s| s.get()) {
+            if let Ok(mut g) = SLOTS.lock() {
+                if let Some(x) = g.get_mut(i) {
+                    *x = None;
+                }
+            }
+        }
     }
 }
 fn set_current<C: Case>(c: &C) -> CurGuard {
     CUR_CASE.with(|cur| cur.set(Some((c as *const C as *const (), case_to_json_thunk::<C>))));
+    if let Ok(mut g) = SLOTS.lock() {
+        let i = match MY_SLOT.with(|s| s.get()) {
+            Some(i) => i,
+            None => {
+                g.push(None);
+                let i = g.len() - 1;
+                MY_SLOT.with(|s| s.set(Some(i)));
+                i
+            }
+        };
+        g[i] = Some(Slot { started: Instant::now(), case_ptr: c as *const C as usize, thunk: case_to_json_thunk::<C>, stage: CUR_STAGE.with(|s| s.borrow().clone()) });
+    }
     CurGuard
+}
+
+thread_local! {
+    static CUR_STAGE: RefCell<String> = RefCell::new(String::new());
+}
+
+/// A case that does not come back: code under test looping forever in-process (or a harness defect). The run cannot go on
+/// and must not look like a pass; following the rule "hang / watchdog = inconclusive, never a violation" the harness stops
+/// with exit status 2 after saving the case for diagnosis.
+pub fn start_hang_watchdog(id: &str, failures_dir: &Path, limit: std::time::Duration) {
+    let id = id.to_string();
+    let dir = failures_dir.to_path_buf();
+    std::thread::spawn(move || loop {
+        std::thread::sleep(std::time::Duration::from_secs(5));
+        if FINISHED.load(Ordering::SeqCst) {
+            return;
+        }
+        let stuck = SLOTS.lock().ok().and_then(|g| g.iter().flatten().find(|s| s.started.elapsed() > limit).map(|s| (s.case_ptr, s.thunk, s.stage.clone(), s.started.elapsed())));
+        if let Some((ptr, thunk, stage, el)) = stuck {
+            // the worker is still inside check(), so the case it points to is alive
+            let case = thunk(ptr as *const ());
+            let v = json!({"property": id, "stage": stage, "sig": "hang", "msg": format!("a single case did not come back within {} s", el.as_secs()), "case": case});
+            let p = write_failure(&dir, &id, &v);
+            println!("INCONCLUSIVE a case of stage `{}` did not return within {} s (in-process hang or harness defect); case saved as {}", stage, el.as_secs(), p.display());
+            use std::io::Write;
+            let _ = std::io::stdout().flush();
+            FINISHED.store(true, Ordering::SeqCst);
+            unsafe { libc::_exit(2) }
+        }
+    });
 }
 
 // ---------------------------------------------------------------------------------------------
@@ -357,6 +418,7 @@ pub fn search<C: Case>(
                         max_global_rejects: 1 << 20,
                         ..Config::default()
                     };
+                    CUR_STAGE.with(|s| *s.borrow_mut() = stage.to_string());
                     let mut runner = TestRunner::new(cfg);
                     let strategy = strat();
                     let res = runner.run(&strategy, |c| {
